@@ -194,23 +194,36 @@ fn div_case<N: Scalar>(case: &Value) -> Result<(Vec<C64>, Vec<C64>), String> {
 pub fn run_div(args: &[String]) {
     let cases = read_ndjson(&args[0]);
     let mut out = Out::create(&args[1]);
+    // a division that does not come back within the deadline is recorded as "hang"; its thread cannot be stopped, so
+    // after three of them the remaining cases of this process that can enter the loop are recorded as "skipped" instead
+    // of being run
+    let mut hangs = 0;
     for case in cases {
         let cx = case["cx"].as_bool().unwrap();
         let c2 = case.clone();
-        let r = guarded(move || if cx { div_case::<C64>(&c2) } else { div_case::<f64>(&c2) });
         let mut o = case.clone();
         o["q"] = json!([]);
         o["r"] = json!([]);
+        if hangs >= 3 && case["d"].as_array().map_or(0, |d| d.len()) >= 2 {   // (a constant divisor never enters the loop)
+            o["st"] = json!("skipped");
+            out.put(o);
+            continue;
+        }
+        let r = with_deadline(5, move || guarded(move || if cx { div_case::<C64>(&c2) } else { div_case::<f64>(&c2) }));
         match r {
-            Ok(Ok((q, r))) => {
+            Some(Ok(Ok((q, r)))) => {
                 o["st"] = json!("ok");
                 o["q"] = cvj(&q);
                 o["r"] = cvj(&r);
             }
-            Ok(Err(_)) => o["st"] = json!("err"),
-            Err(m) => {
+            Some(Ok(Err(_))) => o["st"] = json!("err"),
+            Some(Err(m)) => {
                 o["st"] = json!("panic");
                 o["msg"] = json!(m);
+            }
+            None => {
+                hangs += 1;
+                o["st"] = json!("hang");
             }
         }
         out.put(o);
